@@ -109,12 +109,16 @@ theorem mono_succ (p : Program) (f : Nat) (ih : Mono p f) : Mono p (f + 1) := by
           simp only [hlen, if_false] at h
           split
           · rfl
-          · rename_i cs hcs
-            simp only [hcs] at h
-            cases hb : execStmts p f u.body cs with
-            | fuel => rw [hb] at h; simp [Res.isFuel] at h
-            | err m => rw [ih.stmts u.body cs (by rw [hb]; rfl), hb]
-            | ok st2 sig => rw [ih.stmts u.body cs (by rw [hb]; rfl), hb]
+          · rename_i fargs hfa
+            simp only [hfa] at h
+            split
+            · rfl
+            · rename_i cs hcs
+              simp only [hcs] at h
+              cases hb : execStmts p f u.body cs with
+              | fuel => rw [hb] at h; simp [Res.isFuel] at h
+              | err m => rw [ih.stmts u.body cs (by rw [hb]; rfl), hb]
+              | ok st2 sig => rw [ih.stmts u.body cs (by rw [hb]; rfl), hb]
     | print args => simp [execStmt]
     | exit => simp [execStmt]
     | cycle => simp [execStmt]
